@@ -144,7 +144,8 @@ func (j *cacheJanitor[MetadataT]) cleanExpiredEntries() {
 	}
 
 	endCacheSize := j.cacheFns.getCacheSize()
-	metrics.Global.Cache.BytesCached.Set(endCacheSize)
+	// bytes_cached is kept in step with the cache size by addCacheSize/decrementCacheSize; overwriting it
+	// here with a size read while a store is between its two counter updates would make it drift.
 	metrics.Global.Cache.BytesCleaned.Add(startCacheSize - endCacheSize)
 
 	slog.Info("Cache cleanup complete", "new_size", endCacheSize)
@@ -211,7 +212,8 @@ func (j *cacheJanitor[MetadataT]) evict(maxCacheBytes int64) {
 	}
 
 	endCacheSize := j.cacheFns.getCacheSize()
-	metrics.Global.Cache.BytesCached.Set(endCacheSize)
+	// bytes_cached is kept in step with the cache size by addCacheSize/decrementCacheSize; overwriting it
+	// here with a size read while a store is between its two counter updates would make it drift.
 	metrics.Global.Cache.BytesCleaned.Add(startCacheSize - endCacheSize)
 
 	slog.Info("Cache eviction complete", "evicted_entries", evictions, "new_size", endCacheSize)
